@@ -10,6 +10,7 @@ OVERLAY = {
     PKG + "/zz_c07_ops_verif_test.go": "harness/overlay/basichost/c07_ops_verif_test.go",
     PKG + "/zz_c07_gen_verif_test.go": "harness/overlay/basichost/c07_gen_verif_test.go",
     PKG + "/zz_c07_main_verif_test.go": "harness/overlay/basichost/c07_main_verif_test.go",
+    PKG + "/zz_c07_blank_verif_test.go": "harness/overlay/basichost/c07_blank_verif_test.go",
 }
 NAMES = ["/c07/a", "/c07/a/1.0.0", "/c07/a/1.1.0", "/c07/a/2.0.0", "/c07/ab", "/c07/b", "/c07/b/1.0.0", "/c07"]
 
